@@ -41,7 +41,7 @@ func init() {
 		ID:    "C15",
 		Level: "model_checking",
 		Rule: "for every corpus template: every prefix and suffix, every single-byte insertion and substitution from a 20-byte alphabet at every offset, every token deleted / duplicated / swapped with its neighbour, every pair of token deletions; " +
-			"plus every string of <=5 (quick) / <=6 (thorough) lexemes over a 20-lexeme alphabet; each through decorator.Parse, and (all but the byte-edit and pair inputs) Decorator.ParseFile in 4 parser modes and ParseDir (plain, and through a Decorator with the syntax-based resolver) on a directory holding the input next to a valid file, and Fprint of every tree returned; " +
+			"plus every string of <=5 (quick) / <=6 (thorough) lexemes over a 20-lexeme alphabet; each through decorator.Parse, and (all but the byte-edit and pair inputs) Decorator.ParseFile in 4 parser modes and ParseDir (plain, and through a Decorator with the syntax-based resolver) on a directory holding the input next to a valid file, and Fprint of every tree returned, directly and through a Restorer whose FileSet already holds a file; " +
 			"oracle: no panic escapes; state = distinct input; non-trivial = input rejected by go/parser (error paths)",
 		Assumptions:      []string{"corruptions are single/double edits of corpus files and short lexeme strings"},
 		CrashIsViolation: true,
@@ -194,6 +194,10 @@ func c15Check(src string, allModes bool) (core.Outcome, bool) {
 		var buf bytes.Buffer
 		if p := guard(func() { _ = decorator.Fprint(&buf, f) }); p != "" {
 			return &core.Outcome{Key: "print-panic:" + short(p, 120), Desc: fmt.Sprintf("Fprint of the tree returned by %s panicked: %s\ninput: %q", name, p, src)}
+		}
+		// and as a later file of a Restorer's FileSet (what Package.Save does with every file but the first)
+		if p := guard(func() { _, _ = printFileLate(f) }); p != "" {
+			return &core.Outcome{Key: "late-print-panic:" + short(p, 120), Desc: fmt.Sprintf("printing the tree returned by %s through a Restorer whose FileSet already holds a file panicked: %s\ninput: %q", name, p, src)}
 		}
 		return nil
 	}
